@@ -396,10 +396,37 @@ def out_of_scope_names(prog):
     return inner - top
 
 
+INSIDE = ['on "Top"', 'off "Top"', 'on group "Pole"', 'off location "Home"',
+          'set "Top"', 'set "Strip" zone 1', 'set group "G2"', 'get "Top"',
+          'wait', 'units raw', 'time 1', 'time at 8:00', 'define zz_k 1',
+          'print 1', 'println', 'printf "{}" 1', 'set default', 'on default',
+          'set "Candle" row 1', 'set "Candle" begin stage row 1 end',
+          'return', 'break', 'on all', 'set all', 'stage row 0', 'hue 5',
+          'stage row 0 on "Top" stage row 1', 'repeat 2 on "Top"',
+          'if 1 off "a"', 'assign zz_v 2', 'zz_r', '[ zz_r ]',
+          'repeat all as zz_l on zz_l', 'repeat 2 with zz_i from 0 to 1 '
+          'stage row zz_i', 'set "a" and "Top"', 'on "a" and "Candle"']
+
+
+def class_f(rng):
+    """every kind of command inside a begin/end block of a matrix light (and
+    around it): accepted or rejected, but never a program that faults the VM"""
+    inner = ' '.join(rng.choice(INSIDE) for _ in range(rng.randint(1, 3)))
+    form = rng.choice([
+        'set "Candle" begin {} end print 1',
+        'set "Candle" begin stage row 1 {} stage column 2 end print 1',
+        'define zz_r begin on "Top" return 1 end set "Candle" begin {} end',
+        'define zz_f begin set "Candle" begin {} end end zz_f print 1',
+        'repeat 2 begin set "Candle" begin {} end end',
+        'set "Top" begin {} end', 'set "Nobody" begin {} end print 1',
+        'on "Candle" begin {} end', 'set "Candle" row 1 begin {} end'])
+    return form.format(inner)
+
+
 def class_e(rng):
     """long runs of one token or character: what makes a careless regular
     expression or a recursive descent go exponential or overflow"""
-    k = rng.choice([20, 40, 80, 200, 500, 1500])
+    k = rng.choice([20, 40, 80, 200, 500, 1500, 5000])
     unit = rng.choice(['\\', '\\a', '\\"', '{', '(', '[', '-', '- ', '{ ',
                        '( ', '[ f ', 'not ', '"', '"a', '#', '*', ':', '*:',
                        '1', '1.', '.', '0:', 'a_', '%', '* 2 ', '+ 1 ',
@@ -409,7 +436,7 @@ def class_e(rng):
                        'print ', 'time at ', 'define z "', 'printf "',
                        'set "a" and "a" ', 'repeat '])
     tail = rng.choice(['', '', '"', ' }', ' end', '\n"', ' x'])
-    return (head + unit * k + tail)[:4000]
+    return (head + unit * k + tail)[:12000]
 
 
 def class_d(rng):
@@ -447,6 +474,8 @@ def run_shard(ctx):
         elif k == 7:
             if (i // (8 * ctx.nshards)) % 4 == 3:
                 judge(ctx, class_e(rng), 'E')
+            elif (i // (8 * ctx.nshards)) % 4 == 2:
+                judge(ctx, class_f(rng), 'F')
             else:
                 judge(ctx, class_d(rng), 'D')
         if i % 5000 < ctx.nshards:
@@ -466,7 +495,8 @@ POP = [
 def finalize(merged):
     c = merged['counters']
     for need in ('A:rejected', 'A:accepted', 'B:rejected', 'B:accepted',
-                 'C:rejected', 'D:rejected', 'E:rejected',
+                 'C:rejected', 'D:rejected', 'E:rejected', 'F:rejected',
+                 'F:accepted',
                  'verdicts_equal_on_used_compiler', 'accepted_executed'):
         if not c.get(need):
             merged['inconclusive'].append('class never observed: ' + need)
